@@ -18,8 +18,8 @@ import time
 from concurrent.futures import ThreadPoolExecutor
 
 ROOT = os.path.dirname(os.path.dirname(os.path.abspath(__file__)))
-REPO = "/repo"
-BUILD = os.path.join(ROOT, "_build")
+REPO = os.environ.get("VERIF_REPO", "/repo")
+BUILD = os.environ.get("VERIF_BUILD", os.path.join(ROOT, "_build"))
 COQ = os.path.join(ROOT, "coq")
 HARNESS = os.path.join(ROOT, "harness")
 TARGET = os.path.join(BUILD, "target")
@@ -333,7 +333,8 @@ def vm_crosscheck(pid, run_module, cases, model_out, fn="run"):
 # ------------------------------------------------------------------ known findings
 
 def known_findings(pid):
-    p = os.path.join(ROOT, "known_findings.jsonl")
+    """known_findings/<id>.jsonl — committed, never written at run time."""
+    p = os.path.join(ROOT, "known_findings", pid + ".jsonl")
     out = []
     if os.path.exists(p):
         for ln in open(p):
